@@ -48,12 +48,34 @@ def py_float(p, cse, k, e, scenario):
             for key in keys:
                 rd = ekf.make_reading(key, **{r: float(e[f"z_{key}_{r}"]) for r in p.sensors[key]})
                 cur = ekf.sensor_model(st, cov, sensor_key=key, sensor_reading=rd)
-            if scenario != "seq":
-                dump(cur)
+            if scenario == "seq" and keys:
+                key = keys[0]
+                rd = ekf.make_reading(key, **{r: float(e.get(f"zb_{key}_{r}", 0.375)) for r in p.sensors[key]})
+                cur = ekf.sensor_model(st, cov, sensor_key=key, sensor_reading=rd)
+            dump(cur)
             for key in keys:
                 for i, r in enumerate(p.s_readings(key)):
                     out[f"innov_{key}_{r}"] = float(ekf.innovations[key][i, 0])
             return out
+
+    return pyh.gate_guard(go)
+
+
+def py_prior_modified(p, cse, k, e):
+    def go():
+        probs = []
+        with quiet():
+            ekf = pyh.build_ekf_float(p, e, cse=cse, k=k)
+            st = ekf.State(**{s: float(e[s]) for s in p.state})
+            cov = ekf.Covariance.from_data(pyh.float_cov(p.state, e))
+            s0, P0 = st.data.copy(), cov.data.copy()
+            for key in p.s_sensors():
+                rd = ekf.make_reading(key, **{r: float(e[f"z_{key}_{r}"]) for r in p.sensors[key]})
+                ekf.sensor_model(st, cov, sensor_key=key, sensor_reading=rd)
+                if not (np.array_equal(s0, st.data) and np.array_equal(P0, cov.data)):
+                    probs.append(f"prior changed by the update with sensor {key}")
+                    break
+        return probs
 
     return pyh.gate_guard(go)
 
@@ -112,21 +134,27 @@ def task(p, cse, k, tier, seed):
                     ekf = pyh.build_ekf_sym(p, env, p.process_noise, p.sensor_noise, cse=cse, k=k)
                     st = ekf.State(**pyh.sym_state_kwargs(p.state, env))
                     cov = ekf.Covariance.from_data(Psym.copy())
+                    prior = (st.data.copy(), cov.data.copy())
                     if scenario == "predict":
                         ct = ekf.Control(**pyh.sym_state_kwargs(p.control, env))
                         r = ekf.process_model(SymReal(env[p.dt]), st, cov, ct)
-                        return r, {}
+                        return r, {}, True
                     keys = p.s_sensors() if scenario == "seq" else [scenario.split(":", 1)[1]]
                     cur = pyh.pyh_sv(st, cov)
                     for key in keys:
                         rd = ekf.make_reading(key, **{r: SymReal(zin[key][r]) for r in p.sensors[key]})
                         cur = ekf.sensor_model(st, cov, sensor_key=key, sensor_reading=rd)
-                    return (None if scenario == "seq" else cur), {key: ekf.innovations[key].copy() for key in keys}
+                    if scenario == "seq" and keys:
+                        key = keys[0]
+                        rd = ekf.make_reading(key, **{r: SymReal(z3.Real(f"zb_{key}_{r}")) for r in p.sensors[key]})
+                        cur = ekf.sensor_model(st, cov, sensor_key=key, sensor_reading=rd)
+                    pure = all(lift(a).eq(lift(b)) for A, B in zip(prior, (st.data, cov.data)) for a, b in zip(A.reshape(-1), B.reshape(-1)))
+                    return cur, {key: ekf.innovations[key].copy() for key in keys}, pure
 
             return explore(harness, assumes=assumes, config={"gate": "assume", "inverse": "cut"})
 
         def py_outputs(leaf, scenario):
-            r, inns = leaf.value
+            r, inns, _pure = leaf.value
             out = {}
             for i, s in enumerate(ss if r is not None else []):
                 out[f"x_{s}"] = lift(r.state.data[i, 0])
@@ -147,6 +175,22 @@ def task(p, cse, k, tier, seed):
             if any(l.status != "ok" for l in pl):
                 part.harness_error(f"{key_base}/{scn}: python path failed: {[l for l in pl if l.status != 'ok'][:2]}")
                 continue
+            if not all(l.value[2] for l in pl):
+                # the Python update modified the prior it was given (the C++ takes it by const reference)
+                found = False
+                for e in seeded_envs(random.Random(seed + 2), 6):
+                    try:
+                        probs = py_prior_modified(p, cse, k, e)
+                    except pyh.GateRejected:
+                        continue
+                    if probs:
+                        path = write_replay(PID, {"key": f"{key_base}/prior-modified", "info": dict(info, scenario="prior-modified"), "inputs": e, "problems": probs})
+                        part.violation(f"{key_base}/prior-modified", f"python sensor_model modifies the prior it is given, so a second update from the same prior differs from the C++ filter: {probs[0]}", path)
+                        found = True
+                        break
+                if not found:
+                    part.d["inconclusive"].append(f"{key_base}/{scn}: prior modified symbolically, not reproduced concretely")
+                continue
             cl, _ = cf.run(scn)
             part.d["paths"]["leaves"] += len(cl)
             if len(pl) != len(cl):
@@ -164,6 +208,15 @@ def task(p, cse, k, tier, seed):
                     return {"impl": got_c[oname], "spec": got_py[oname]}
 
                 return replay
+
+            def replay_all(e, scn=scn):
+                """All named outputs of the scenario on both sides (used where the compared quantity, e.g. the
+                inverse argument S, is internal: if it really differs, the outputs do)."""
+                e = dict(e)
+                got_py = py_float(p, cse, k, e, scn)
+                got_c, _, _ = cf.run_concrete(scn, _cpp_inputs(p, e))
+                names = [nm for nm in got_py if nm in got_c]
+                return {"impl": [got_c[nm] for nm in names], "spec": [got_py[nm] for nm in names]}
 
             # match leaves by equivalent path conditions
             unmatched = list(cl)
@@ -195,7 +248,7 @@ def task(p, cse, k, tier, seed):
                     m = len(carg)
                     for i in range(m):
                         for j in range(m):
-                            prove_equal(part, PID, f"{key_base}/{scn}: inverse argument S[{i},{j}] equal (cut {cut['k']})", carg[i][j], lift(cut["arg"][i, j]), pa + l.pc, tmo, replay=None, key=f"{key_base}/{scn}/S", all_vars=allv)
+                            prove_equal(part, PID, f"{key_base}/{scn}: inverse argument S[{i},{j}] equal (cut {cut['k']})", carg[i][j], lift(cut["arg"][i, j]), pa + l.pc, tmo, replay=replay_all, key=f"{key_base}/{scn}/S", info=dict(info, scenario=scn, output="x_" + ss[0]), all_vars=allv, witness_constraints=wit, seeded_envs=seeded_envs)
                 for oname, pt in po.items():
                     if oname not in mate.out:
                         if oname.startswith("innov_") and any("innovation_missing" in nt for nt in mate.notes):
@@ -221,6 +274,9 @@ def _cpp_inputs(p, e):
     out = {k: float(v) for k, v in e.items() if isinstance(v, (int, float))}
     for nm in pyh.input_env(p):
         out.setdefault(nm, 0.5)
+    for key in p.sensors:
+        for r in p.sensors[key]:
+            out.setdefault(f"zb_{key}_{r}", 0.375)
     return out
 
 
@@ -288,6 +344,11 @@ def replay(path):
             return 0
         e = r["inputs"]
         scn = info["scenario"]
+        if scn == "prior-modified":
+            probs = py_prior_modified(p, info["cse"], info["k"], e)
+            print(probs)
+            print("REPRODUCED" if probs else "not reproduced")
+            return 1 if probs else 0
         try:
             a = py_float(p, info["cse"], info["k"], e, scn)
         except pyh.GateRejected as ex:
